@@ -116,6 +116,21 @@ CLAIMS = {
                      "operations on well-typed values is validated by the battery here and is C01's subject.",
         "technique": "Lean 4 theorem over all JSON trees (induction on depth) + differential decode stream + operation battery",
     },
+    "C14": {
+        "text": "Theorems on the Lean model of makeDetailStr: rolls whose extents do not touch are grouped one per roll, in "
+                "order (all span lists); splicing one roll yields exactly `bytes before ++ value[annotation] ++ bytes after` for "
+                "every buffer and every in-range extent (the bytes outside the roll are untouched); a plain dice roll is "
+                "annotated exactly as value[source=text]. The model is tied to makeDetailStr by the `detail` stream on random "
+                "(source, offset, spans) tuples including nested/overlapping/touching spans, every tag, textOnly, custom "
+                "suffixes and out-of-range spans (panic on both sides). Oracle on the implementation, for arithmetic over dice "
+                "terms of every family with arbitrary spacing and line breaks: the text is the source with each roll replaced "
+                "by value[annotation]; stripping annotations leaves arithmetic that evaluates to the result; each annotation's "
+                "value equals the total of the dice it lists (lib/diceoracle); GetDetailText is idempotent and leaves result, "
+                "variables and generator untouched.",
+        "note": TB + "The n-roll order-independence of the reverse splice (detail_is_render for all n) is stated in DESIGN.md and "
+                     "not yet proved; strings.TrimSpace is modelled for ASCII white space. Hook: VerifMakeDetail.",
+        "technique": "Lean 4 theorems on a byte-level model of the splice + differential stream + arithmetic/dice oracle",
+    },
 }
 
 NOT_YET = {}
